@@ -181,6 +181,17 @@ def directed():
             {'name': 'L1', 'start': 0.0, 'callers': [{'c': 1, 'k': 'a'}, {'c': 2, 'k': 'a', 'at': 1.0}], 'life': 'full'},
             {'name': 'L2', 'start': 0.0, 'callers': [{'c': 3, 'k': 'a', 'at': 1.0}, {'c': 4, 'k': 'a', 'at': late}], 'life': 'full'}],
             'func': {'dur': dur}, 'mapping': 'dict', 'strategy': {'kind': 'replay', 'prefix': []}})
+    # a loop that stopped with the computation pending is run again later (C05 / C06 only: C01 excludes this history);
+    # meanwhile another loop took the key over; the resumed computation then finishes, fails or is cancelled
+    for dur, rd, rc, fail in itertools.product([3.0, 6.0], [1.5, 4.0], [None, 1], [[], [1]]):
+        out.append({'loops': [
+            {'name': 'L1', 'start': 0.0, 'callers': [{'c': 1, 'k': 'a'}, {'c': 2, 'k': 'a', 'at': 0.2}],
+             'life': 'early_resume', 'main_dur': 0.5, 'shutdown_delay': rd, 'resume_cancel': rc},
+            # (the second loop stays alive - a later call for another key - so that nobody can be thought to be
+            #  waiting for a computation stranded on it)
+            {'name': 'L2', 'start': 0.0, 'callers': [{'c': 3, 'k': 'a', 'at': 1.0}, {'c': 4, 'k': 'b', 'at': 100.0}], 'life': 'full'}],
+            'func': {'dur': dur, 'fail': fail}, 'mapping': 'dict', 'resume': True,
+            'strategy': {'kind': 'replay', 'prefix': []}})
     # results that are None / falsy are results like any other: concurrent callers plus a later one
     for ret, mp, dur in itertools.product(['none', 'falsy'], ['dict', 'mm', 'lru'], [0, 1.0]):
         out.append({'loops': [
@@ -234,8 +245,9 @@ def run(ctx):
     # 2. the code: executions validated against the contract
     sz = SIZES[ctx.tier]
     w = WEIGHT[ctx.prop]
-    executed = ctx.run_and_validate(DRIVER, COMP, TRACE, directed(), 'directed', nontrivial=nontrivial,
-                                    known_match=known_match)
+    executed = ctx.run_and_validate(DRIVER, COMP, TRACE,
+                                    [sc for sc in directed() if not (ctx.prop == 'C01' and sc.get('resume'))],
+                                    'directed', nontrivial=nontrivial, known_match=known_match)
     for fam, gen in (('contention', fam_contention), ('lifecycle', fam_lifecycle),
                      ('faults', fam_faults), ('mixed', fam_mixed), ('evicting', fam_evicting)):
         n = int(sz[fam] * w[fam])
